@@ -282,6 +282,7 @@ func c17Forwarder(r *Run) {
 	dest := &c17Dest{pub: NewScriptedPublisher(r, "destination"), callsOf: map[*Delivery][]*PubCall{}}
 	c17Faults(t, dest.pub)
 	r.Describe("Forwarder{topic:%q AckWhenCannotUnwrap:%v}: %d messages (kinds %v), destination faults %v, %d in flight", fwdTopic, ackBad, n, kindsOf(items), dest.pub.FailAt, src.Lanes)
+	stamping := t.Chance(1, 2)
 	dest.pub.Hook = func(c *PubCall) {
 		for _, m := range c.Msgs {
 			var cur *Delivery
@@ -295,6 +296,11 @@ func c17Forwarder(r *Run) {
 				continue
 			}
 			dest.callsOf[cur] = append(dest.callsOf[cur], c)
+			if stamping {
+				// a destination that stamps what it publishes (tracing, a relay marker), as any publisher may: the relayed
+				// message is an ordinary message whose metadata can be written (the content was recorded before)
+				m.Metadata.Set("stamped-by-destination", "1")
+			}
 		}
 	}
 	f, err := forwarder.NewForwarder(src, dest.pub, nopLogger(), forwarder.Config{ForwarderTopic: fwdTopic, AckWhenCannotUnwrap: ackBad})
